@@ -6,8 +6,6 @@ import (
 	"iter"
 	"maps"
 	"slices"
-
-	"gopkg.in/yaml.v3"
 )
 
 func popMapValue(m map[string]any, k string) (bool, any, map[string]any) {
@@ -302,17 +300,36 @@ func toStringListPermissive(v any) ([]string, error) {
 }
 
 func deepClone(v any) (any, error) {
-	yml, err := yaml.Marshal(v)
-	if err != nil {
-		return nil, err
+	switch v2 := v.(type) {
+	case map[string]any:
+		ret := make(map[string]any, len(v2))
+
+		for k, v3 := range v2 {
+			v4, err := deepClone(v3)
+			if err != nil {
+				return nil, err
+			}
+
+			ret[k] = v4
+		}
+
+		return ret, nil
+
+	case []any:
+		ret := make([]any, len(v2))
+
+		for i, v3 := range v2 {
+			v4, err := deepClone(v3)
+			if err != nil {
+				return nil, err
+			}
+
+			ret[i] = v4
+		}
+
+		return ret, nil
+
+	default:
+		return v, nil
 	}
-
-	var ret any
-
-	err = yaml.Unmarshal(yml, &ret)
-	if err != nil {
-		return nil, err
-	}
-
-	return ret, nil
 }
